@@ -26,10 +26,19 @@ def _scalar(sk, v, dt2):
     return typed([v], dt2)[0]      # numpy scalar of dtype dt2
 
 
-def apply(RaggedArray, p, lens, d1, d2, sc, lens2=None):
-    uf = getattr(np, p["op"])
+def _ufunc(name):
+    if name == "uf_f":          # an uninterpreted binary ufunc on the symbolic side; np.add stands in for it at replay
+        return np.uf_f if common.SYMBOLIC else np.add
+    return getattr(np, name)
+
+
+def apply(RaggedArray, p, lens, d1, d2, sc, lens2=None, P=None):
+    uf = _ufunc(p["op"])
     kind = p["kind"]
     ra = mk_ragged(RaggedArray, d1, lens, p["dt1"])
+    if p.get("pre"):
+        from . import programs
+        ra = programs.step(ra, p["pre"], P, "s0")          # the ragged operand is a lazy selection
     if kind == "unary":
         return uf(ra), ra, None
     if kind in ("rr", "rr_bad"):
@@ -71,7 +80,7 @@ def sym(E, p, kf):
             sc = E.bool("s")
         else:
             sc = gen_cells(E, 1, p["dt2"], "s")[0]
-    elif kind in ("rc", "cr"):
+    elif kind in ("rc", "cr") and not p.get("pre"):
         d2 = gen_cells(E, R, p["dt2"], "c")
         if p.get("nonzero2"):
             pass
@@ -82,6 +91,33 @@ def sym(E, p, kf):
                 E.assume(d != 0)
             elif z3.is_int(d):
                 E.assume(d != 0)
+    P = None
+    if p.get("pre"):
+        from . import programs
+        P = programs.ParamStore(E, B=2)
+        # the selection's own rows (second evaluation, so that observing does not disturb the operand under test)
+        ref = programs.step(mk_ragged(RaggedArray, d1, lens, p["dt1"]), p["pre"], P, "s0")
+        o = common.obs_ragged(ref)
+        sel_d1, sel_lens = o["flat"], [specs.I(x) for x in o["lens"]]
+        K = len(sel_lens)
+        d2 = gen_cells(E, K, p["dt2"], "c")
+        got = outcome(lambda: apply(RaggedArray, p, lens, d1, d2, sc, lens2, P))
+        case = dict(p=p, lens=lens, d1=d1, d2=d2, sc=sc, lens2=lens2, params=P.values)
+        if got["k"] != "tuple":
+            return dict(goal=False, got=got, case=case)
+        res = got["items"][0]
+        uf = _ufunc(p["op"])
+        sstarts, _ = specs.prefix_starts(sel_lens)
+        expanded = []
+        for q in range(len(sel_d1)):
+            cur = d2[-1]
+            for r in range(K - 2, -1, -1):
+                cur = z3.If(q < sstarts[r] + sel_lens[r], d2[r], cur)
+            expanded.append(cur)
+        a = typed(sel_d1, p["dt1"])
+        b = typed(expanded, p["dt2"])
+        exp = uf(a, b) if kind == "rc" else uf(b, a)
+        return dict(goal=specs.obs_goal(res, dict(k="ragged", flat=cells(exp), lens=sel_lens, dtype=common.dtname(exp))), got=res, case=case)
     got = outcome(lambda: apply(RaggedArray, p, lens, d1, d2, sc, lens2))
     case = dict(p=p, lens=lens, d1=d1, d2=d2, sc=sc, lens2=lens2)
     if kind == "rr_bad":
@@ -141,6 +177,21 @@ def conc(case):
     if sc is not None and p.get("sk") == "np":
         sc = _signed([sc], p["dt2"])[0]
     import warnings
+    if p.get("pre"):
+        from . import programs
+        P = programs.ParamStore(None, dict(case["params"]), B=2)
+        got = outcome(lambda: apply(RaggedArray, p, lens, d1, d2, sc, lens2, P))
+        ref = programs.step(mk_ragged(RaggedArray, d1, lens, p["dt1"]), p["pre"], P, "s0")
+        rows = [typed(r, p["dt1"]) for r in common.rows_of(cells(ref.ravel()), cells(ref.shape[1]))]
+        uf = _ufunc(p["op"])
+        outs = []
+        for r, row in enumerate(rows):
+            c = typed([d2[r]], p["dt2"])[0]
+            outs.append(uf(row, c) if p["kind"] == "rc" else uf(c, row))
+        odt = str(outs[0].dtype) if outs else "*"
+        exp = common.ref_ragged([cells(o) for o in outs], odt)
+        g = got["items"][0] if got["k"] == "tuple" else got
+        return g, exp, {"float_eq": True}
     got = outcome(lambda: apply(RaggedArray, p, lens, d1, d2, sc, lens2))
     if p["kind"] == "rr_bad":
         return got, common.refused()
@@ -211,6 +262,12 @@ def jobs(tier, seed):
                     continue
                 # numpy bool scalars are not numbers.Number: the library does not accept them as scalar operands (outside the claim)
                 out.append(dict(base, op=op, kind=kind, dt1=dt1, dt2=dt2, sk=("pybool" if dt2 == "bool" else "np") if kind == "rs" else None))
+    # column broadcast onto a lazily selected operand; float16 cells with IEEE-exact arithmetic (a broadcast that goes through
+    # differences and a running sum is exact for integers but not for floats)
+    for pre in ("rowrev", "rowlist", "mask", "rowslice_a"):
+        for kind in ("rc", "cr"):
+            out.append(dict(R=2 if q else 3, L=2, op="uf_f", kind=kind, dt1="float16", dt2="float16", sk=None, pre=pre))
+        out.append(dict(R=2 if q else 3, L=2, op="subtract", kind="rc", dt1="int64", dt2="int64", sk=None, pre=pre))
     # python scalars on small dtypes (NEP 50: weak)
     for dt1 in ("uint8", "int8", "int32", "bool"):
         for sk in ("pyint", "pybool"):
